@@ -28,7 +28,9 @@ TMine   == /\ IsEvent("Mine") /\ Mine /\ Ev.ret = MineRet /\ Obs
 TExtend == /\ IsEvent("Extend") /\ Extend(Ev.txs) /\ Ev.ret = ExtendRet(Ev.txs) /\ Obs
 TFork   == /\ IsEvent("Fork") /\ Fork(Ev.txs) /\ Ev.ret = ForkRet(Ev.txs) /\ Obs
 
-TNext == TReset \/ TSubmit \/ TMine \/ TExtend \/ TFork
+TReinit == /\ IsEvent("Reinit") /\ Reinit /\ Ev.ret = "ok" /\ Obs
+
+TNext == TReset \/ TSubmit \/ TMine \/ TExtend \/ TFork \/ TReinit
 TSpec == TInit /\ [][TNext]_tvars
 
 Mark == MarkHWM(l - 1)
